@@ -456,6 +456,11 @@ def i_overused_constant(c):
     f = c.name("usec")
     lines += [f"def {f}(a={lit}):"] + ind([f"return a == {lit}, [{lit}][0]"])
     lines += [f"print({', '.join(names)}, {f}())"]
+    if lit.startswith("'") and r.random() < 0.5:  # the literal as a value in the patterns of a match statement: a name there would be a capture
+        m = c.name("kind")
+        lines += [f"def {m}(v):"] + ind(["match v:"] + ind([f"case {lit}:", "    return 1", f"case [{lit}, other]:", "    return 2", f"case {{'k': {lit}}}:", "    return 3",
+                                                         f"case ({lit} | 'short') as both:", "    return both", "case _:", "    return 0"]))
+        lines += [f"print([{m}(v) for v in ({lit}, [{lit}, 1], ['x', 1], {{'k': {lit}}}, {{'k': 2}}, 'short', 5)])"]
     return lines
 
 
